@@ -21,7 +21,8 @@ EXPLANATION = (
     "write; (R7) the delete filter compares paths for equality with BOTH operands under the same leading-slash normalisation."
     ' Also: (R0) parent repointing walks each survivor independently (no state shared between survivors).'
     " (R8) a file delete keeps everything else: every existing manifest with surviving files reaches final_manifests.append (path query with the 'no survivors' edge as the only bypass); R6 also ties the trim bound to the properties of the metadata being written."
-    ' (R9) snapshot_log producers keep commit order (C09.R10); (R10) every create_manifest_file(existing_files=X) site carries DataFiles whose added_snapshot_id / sequence_number come from their source; (R11) who-may-delete census (C09.R3).')
+    ' (R9) snapshot_log producers keep commit order (C09.R10); (R10) every create_manifest_file(existing_files=X) site carries DataFiles whose added_snapshot_id / sequence_number come from their source; (R11) who-may-delete census (C09.R3).'
+    ' R1 also decides, by scenario, that retention re-adds the current snapshot whenever it is missing from the kept set.')
 NOT_DECIDED = ("the invariants over operation histories (parents are true ancestors, log order, retention with out-of-order "
                "timestamps) at run time")
 
